@@ -37,7 +37,7 @@ TEXT = {
                       "push contracts determine index and new abstract state from the old abstract state and the item only.",
                 ref="DESIGN.md §4 C08", note=_NOTE, technique=_T + "; `fresh` postconditions on clear/default"),
     "C10": dict(level="Unbounded proof that reserve/with_capacity of Vec, IndexList, IndexOptimized and FlatStack::{reserve,with_capacity} leave the abstract view unchanged (resp. empty, fresh). "
-                      "Region-level reserve_* / merge_* bodies (iterator adapters) are outside the dialect.",
+                      "Region-level reserve_* / merge_* bodies (iterator adapters) are outside the dialect: bounded twins (reserve / merge over 17 compositions, coded leaves in 9 compositions, FlatStack::with_capacity / FromIterator versus default over coded and plain regions).",
                 ref="DESIGN.md §4 C10", note=_NOTE, technique=_T),
     "C11": dict(level="Unbounded proof, generic in the inner region and item type, that CollapseSequence::push returns the previous index and leaves the inner region untouched exactly when "
                       "last_index is Some(l) and the item equals the item at l, otherwise stores the item and remembers its index; clear/default forget the last index.",
@@ -73,7 +73,7 @@ TEXT = {
                 technique="bounded twin harnesses (native exhaustive enumeration) + program-text scans + a small contract-based part (Verus) on the hand-written clone bodies"),
     "C14": dict(level="Bounded (labelled as such): IntoOwned laws (into_owned == pushed, borrow_as round trip, clone_onto onto 5 prior targets, reborrow, region-to-region push) on read items of slice, columns, option, result, "
                       "nested slice regions and Huffman Wrapped items, region-backed and owned-borrowed. "
-                      "Deductive part (Verus, unbounded, generic in the parts): IntoOwned for Option<T> and Result<T,E> — into_owned, clone_onto (whatever the target held before, incl. the other variant), borrow_as.",
+                      "Deductive part (Verus, unbounded, generic in the parts): IntoOwned for Option<T> and Result<T,E> — into_owned, clone_onto (whatever the target held before, incl. the other variant), borrow_as; and the blanket impl for references (&[T], &str, &T) relative to assumed laws of std's ToOwned / Borrow.",
                 ref="DESIGN.md §4 C14", note="Trusted: harness oracles. The IntoOwned bodies are iterator adapters / std calls outside the Verus dialect.",
                 technique="bounded harnesses (native exhaustive enumeration)"),
     "C15": dict(level="Bounded (labelled as such), value-complete for the stated sizes natively over a 3-value byte domain: all triples of u8 vectors of length 0..2 in every representation (two regions, owned-borrowed): ==, partial_cmp, cmp "
@@ -86,13 +86,13 @@ TEXT = {
                 ref="DESIGN.md §4 C16", note="Trusted: harness oracle; serde, serde_derive, serde_json. HuffmanContainer and CodecRegion are not serde-enabled in the crate and are outside the claim.",
                 technique="bounded harness (native exhaustive enumeration) — bounded stand-in only; contracts cannot express the property"),
     "C17": dict(level="Bounded (labelled as such). (1) For 8 vector-backed structural regions and FlatStack::merge_capacity, batches of 0..3 items, after reserve_items / reserve_regions (empty or populated target) / merge_regions, "
-                      "pushing exactly the announced contents keeps every capacity reported by heap_size constant (targets: empty, one item, or filled until a storage has 0..2 spare bytes); the same for 23 (region, ReserveItems form) pairs incl. announced-by-reference / pushed-owned. (2) With a counting global allocator in the native driver: the same regions, n = 2^6 .. 2^14 items — "
+                      "pushing exactly the announced contents keeps every capacity reported by heap_size constant (targets: empty, one item, or filled until a storage has 0..2 spare bytes); the same for 31 (region, ReserveItems form) pairs incl. announced-by-reference / pushed-owned, strings and tuples announced through an enclosing slice / option / result region, FlatStack::reserve_items fed by a filtered iterator. (2) With a counting global allocator in the native driver: the same regions, n = 2^6 .. 2^14 items — "
                       "without pre-sizing at most storages x (log2(elements)+2) allocator calls; after pre-sizing up to 64 announced items, zero allocator calls while pushing them. "
                       "The logarithmic bound also for 19 further (composition, input form) pairs (arrays, PushIter, &&[T], &&str, columns, consecutive pairs, collapse, FlatStack). "
                       "No contract can express an allocation count, so there is no deductive part; beyond n = 2^14 and beyond the catalogued regions and forms nothing is decided.",
                 ref="DESIGN.md §4 C17, §9.6", note="Trusted: harness oracle; capacities as reported by heap_size; allocator calls as seen by a counting #[global_allocator] in the replay binary (native builds only).",
                 technique="bounded harnesses (native exhaustive enumeration): capacities via heap_size and allocator-call counting"),
-    "C18": dict(level="Bounded (labelled as such): recording-callback harnesses over 12 compositions and the three index containers (used <= capacity, number of pairs, sum(used) >= payload + index entries, monotone under push, "
+    "C18": dict(level="Bounded (labelled as such): recording-callback harnesses over 13 compositions, tuple regions whose fields own several allocations, Vec<T> regions with elements larger than their alignment, and the three index containers (used <= capacity, number of pairs, sum(used) >= payload + index entries, monotone under push, "
                       "after clear no payload accounted and no capacity shrank — also after 300..4200 pushes; index-container bytes equal the documented rule) plus a mechanical obligation that every storage-bearing field appears in its heap_size body.",
                 ref="DESIGN.md §4 C18", note="Trusted: harness oracles. HuffmanContainer::heap_size is todo!() and DictionaryCodec's is empty: outside the catalogue.",
                 technique="bounded harnesses (native exhaustive enumeration) + program-text scan"),
